@@ -1,6 +1,6 @@
 (* Correspondence cases for the DSL layer (C10, C11, C12, C13): verbatim structural comparison. *)
 From Coq Require Import List Bool Arith String.
-From Y0 Require Import Base.ListSet Dsl.Syntax Dsl.Build Dsl.Canon Dsl.Print Corr.Common.
+From Y0 Require Import Base.ListSet Dsl.Syntax Dsl.Text Dsl.Build Dsl.Canon Dsl.Print Dsl.Parse Corr.Common.
 Import ListNotations.
 
 Inductive case :=
@@ -13,7 +13,9 @@ Inductive case :=
 | CMarkov (e : expr) (out : nat)                           (* 0 False, 1 True, 2 TypeError *)
 | CCanon (e : expr) (ordering : option (list var)) (out out2 : expr) (* canonicalize; and canonicalize of the result *)
 | CCanonEq (a b : expr) (out : bool)
-| CPrint (e : expr) (out : string).
+| CPrint (e : expr) (out : string)
+| CParse (s : string) (out : expr)
+| CRound (e : expr) (txt : string) (parsed : expr) (txt2 : string).
 
 Definition sum_simplify_method (e : expr) : expr :=
   match e with ESum e' rs => sum_simplify e' rs | _ => EErr 9 end.
@@ -43,4 +45,8 @@ Definition check (c : case) : bool :=
       expr_eqb c1 out && expr_eqb (canonicalize_top false c1 o) out2
   | CCanonEq a b out => Bool.eqb (canonical_expr_equal a b) out
   | CPrint e out => String.eqb (to_y0 e) out
+  | CParse s out => expr_eqb (parse_y0 s) out
+  | CRound e txt parsed txt2 =>
+      String.eqb (to_y0 e) txt && expr_eqb (parse_y0 txt) parsed
+      && (if is_err parsed then true else String.eqb (to_y0 parsed) txt2)
   end.
